@@ -88,11 +88,14 @@ func c02Profiles(tier string) []Profile {
 			ls := storeLetters(true, true)(w)
 			if _, ok := w.Colls["x"]; ok {
 				// a key of exactly the maximum length must be durable like any other
-				ls = append(ls, Letter{"Set(x.key65535)", func(w *harness.World) { w.SetItem("x", longKey("m", 65535), 2, bs("max")) }})
+				ls = append(ls, Letter{"Set(x.key65535)", func(w *harness.World) { w.SetItem("x", longKey("m", 65535), 2, bs("max")) }},
+					// values whose length is an exact multiple of 64 KiB (block-sized payloads)
+					Letter{"Set(x.val65536)", func(w *harness.World) { w.SetItem("x", bs("v1"), 1, longKey("V", 65536)) }},
+					Letter{"Set(x.val131072)", func(w *harness.World) { w.SetItem("x", bs("v2"), 3, longKey("W", 131072)) }})
 			}
 			return ls
 		}}
-	conc = append(conc, pre.Profile(fmt.Sprintf("initial state: x{a,b}, y{a} flushed; every history of length <= %d over the same alphabet (deleting or overwriting persisted items, removing persisted collections, then Flush / Reopen)", d-1)))
+	conc = append(conc, pre.Profile(fmt.Sprintf("initial state: x{a,b}, y{a} flushed; every history of length <= %d over the same alphabet (deleting or overwriting persisted items, removing persisted collections, a maximum-length key, values of exactly 64 KiB and 128 KiB, then Flush / Reopen)", d-1)))
 	conc = append(conc, Profile{Name: "after-failed-flush", Exec: OnlyOracles(c07Exec(1, 1, false), "durable", "observe", "model"),
 		Budget: map[int]int{1: 0, 2: 0, 3: 1}, ShardLevel: 3,
 		Rule: "durability of a Flush that follows a failed one: the C07 driver (5 initial stores x every single operation x one failing file call at every index, retried or not) followed by Set, Flush, a copy of the file re-opened, Reopen; contents oracles only"})
